@@ -139,6 +139,8 @@ def run_total(pid, tier, seed):
     res["gens"].append(g)
     if "hang" in g:
         res["hang"] = g["hang"]
+        if g.get("crash_event"):
+            res["crash_event"] = g["crash_event"]
         return res
     bads, consumed, notes = vlib.validate("TraceTotal.tla", "TraceTotal.cfg", g["files"], xmx="3g")
     res["bads"] += bads
@@ -808,7 +810,10 @@ def run_check(pid, tier, seed):
     violations, known_hits, seen_sigs, unreproduced = [], [], set(), []
     if "hang" in res:
         path = os.path.join(outdir, "viol-hang.json")
-        json.dump({"property": pid, "clause": "no_termination", "case": res["hang"]}, open(path, "w"))
+        rec = {"property": pid, "clause": "no_termination", "case": res["hang"]}
+        if res.get("crash_event"):
+            rec.update(clause="process_died", event=res["crash_event"])
+        json.dump(rec, open(path, "w"))
         violations.append(path)
         print("VIOLATION property=%s replay=%s" % (pid, path))
     for clause, path in res.get("direct_violations", []):
@@ -907,6 +912,22 @@ def run_check(pid, tier, seed):
 def replay(path):
     ev = json.load(open(path))
     pid = ev.get("property")
+    if "trace" not in ev and ev.get("clause") == "process_died" and "event" in ev:
+        # the real code did not return: re-run the recorded case in a process of its own
+        vh = vlib.build_harness()
+        d = vlib.workdir()
+        cpath = os.path.join(d, "replay_crash.json")
+        json.dump(ev["event"], open(cpath, "w"))
+        p = subprocess.run(["timeout", "600", vh, "replay", cpath], capture_output=True, text=True)
+        died = p.returncode != 0 and ("fatal error" in p.stderr or p.returncode == 4)
+        print(json.dumps({"reproduced": died, "returncode": p.returncode, "stderr": p.stderr[:300]}))
+        if died:
+            print("VIOLATION property=%s replay=%s" % (pid, path))
+            return 1
+        if p.returncode != 0:
+            print("replay failed: " + p.stderr[-500:])
+            return 2
+        return 0
     if "trace" not in ev:
         print("replay file names no trace specification")
         return 2
